@@ -42,11 +42,80 @@ def run(ctx):
     ctx.guard(pair_shape_order)
     ctx.guard(leaf_default_condition)
     ctx.guard(rank_shape_covers)
+    ctx.guard(unflatten_siblings)
 
 
 def _walk(stmts):
     from ..cfg import walk_own
     return walk_own(stmts)
+
+
+# -- R1: an unflatten peels the shape exactly like the rank ids -----------------
+
+def unflatten_siblings(ctx):
+    """Tensor._unflattenRankIdsShape expands the entry of every unflattened
+    level of two parallel lists -- the rank ids and the shape -- into its head
+    and the rest.  The two are position-for-position descriptions of the same
+    ranks, so whatever is done to one list must be done to the other: the two
+    pieces of code are cross-checked against each other (same statements up
+    to the name of the list and of local temporaries, or one helper applied
+    to both).  A deviation leaves a rank with the shape of its neighbour or
+    the shape list with a different length than the rank ids."""
+    import re
+    f = ctx.method("Tensor", "_unflattenRankIdsShape")
+    rets = pat.returns(f)
+    ctx.require(len(rets) == 1 and isinstance(rets[0].value, ast.Tuple) and
+                len(rets[0].value.elts) == 2 and
+                all(isinstance(e, ast.Name) for e in rets[0].value.elts),
+                "C14.R1: _unflattenRankIdsShape no longer returns (rank_ids, shape)")
+    names = [e.id for e in rets[0].value.elts]
+
+    def description(L):
+        out = []
+        for st in f.body:
+            if isinstance(st, ast.For) and any(
+                    isinstance(n, ast.Name) and n.id == L for n in ast.walk(st)):
+                src = text(st)
+                local = []
+                for n in ast.walk(st):
+                    if isinstance(n, ast.Name) and isinstance(n.ctx, ast.Store) and \
+                            n.id != L and n.id not in local:
+                        local.append(n.id)
+                src = re.sub(r"\b%s\b" % re.escape(L), "$L", src)
+                for i, nm in enumerate(local):
+                    src = re.sub(r"\b%s\b" % re.escape(nm), "$%d" % i, src)
+                out.append(("loop", src.replace(" ", "")))
+            elif isinstance(st, (ast.Expr, ast.Assign)) and isinstance(st.value, ast.Call) \
+                    and isinstance(st.value.func, ast.Name) and \
+                    [text(a) for a in st.value.args] == [L] and not st.value.keywords and \
+                    st.value.func.id in f.inner_funcs:
+                out.append(("helper", st.value.func.id))
+        return out
+    da, db = description(names[0]), description(names[1])
+
+    def skeleton(L):
+        # statement kinds only: two spellings of different statement shape
+        # (a loop on one side, a comprehension on the other) are not compared
+        return [[type(n).__name__ for n in ast.walk(st) if isinstance(n, ast.stmt)]
+                for st in f.body if isinstance(st, ast.For) and any(
+                    isinstance(n, ast.Name) and n.id == L for n in ast.walk(st))]
+    if da != db and (not da or not db or skeleton(names[0]) != skeleton(names[1])
+                     or {d[0] for d in da + db} != {"loop"}):
+        ctx.info("C14.R1: the rank-id and shape halves of _unflattenRankIdsShape "
+                 "are written in different forms; the cross-check is not applied")
+        return
+    if da and da == db:
+        ctx.ok("C14.R1", f, rets[0], "shape entries are peeled exactly like the "
+               "rank ids (%s)" % ("one helper for both" if da[0][0] == "helper"
+                                  else "statement-for-statement"),
+               text_="unflatten rank ids / shape in step")
+    else:
+        ctx.bad("C14.R1", f, rets[0], "_unflattenRankIdsShape treats the shape "
+                "list differently from the rank-id list (%s vs %s): a rank gets "
+                "a shape entry that belongs to another rank, or the two lists "
+                "differ in length"
+                % ([d[1][:90] for d in db] or "nothing", [d[1][:90] for d in da] or "nothing"),
+                text_="unflatten rank ids / shape in step")
 
 
 def _result(ctx, f):
